@@ -13,7 +13,7 @@ import (
 
 func init() {
 	register("C02", runC02, propMeta{
-		Explanation: "Decides the control-flow shape of every statement evaluator, for all statement trees: (S1) Statements.Evaluate ranges the whole statement list forward once, evaluates each element once, tests error and returned-flag on every path to the next iteration, leaves with that error / that value and flag, and evaluates the trailing return statement only after the loop; (S2) in IfStmt.Evaluate no CFG path leads from one branch-body evaluation to another (so at most one branch runs), each body is dominated by the true edge of .Bool() of its own condition, the else body by the false edges of all conditions, and else-if conditions are evaluated in list order only after the if-condition was false; (S3) in ForStmt.Evaluate the init assignment is evaluated once before the loop, the condition's .Bool() true edge dominates the body, every path from the body to the next condition passes the step assignment (also the continue path), the break edge reaches no condition, other errors return, a true returned-flag returns value and flag; (S4) ForRangeStmt.Evaluate calls Key() exactly once per iteration and binds it with SetValue(keyName, key) before the body; the iterators advance by one and stop at their length (R5); (S5) BREAKFLAG and CONTINUEFLAG are two distinct package variables, each initialised by its own errors.New and never reassigned, returned only by Break/ContinueStmt and compared only by the two loop evaluators, and no other statement evaluator wraps a child's error, so identity survives nesting and the innermost enclosing loop intercepts; (S6) the returned-flag discipline of C11-M3; (S7) the compound assignment table is exhaustive over the six assignOperator tokens read from the generated parser: += -= *= /= call core.Add/Sub/Mul/Div(current, rhs) with current read from the same target and the result written back to it, = and := skip the read; (S8) one flat local store per rule execution (C15-V1/V2). S2-S4 also demand the converse: a true condition evaluates its branch, an existing else runs when every condition is false, every pass of a loop evaluates the body; the store handed to the body is the one fresh table made for this execution. Only Assignment.Evaluate and the key binding of forRange call SetValue, only Assignment.Evaluate calls SetMapVarValue. The map iterator is given value.MapKeys() and the slice iterator value.Len() of the value it is made for. Not decided: values. (S6') where an evaluator hands on a child's returned-flag, and nothing else as the flag, it hands on that child's value: a return inside a loop or branch ends the rule with its value at every level (break and continue, whose flag marks a sentinel, have no value). (S10) every Accept* method of a statement node stores its parameter itself (directly, appended, or wrapped in a node made there). (S11) reads and writes resolve a name the same way, the injected table first: an assignment writes the variable a later read of the same name reads.",
+		Explanation: "Decides the control-flow shape of every statement evaluator, for all statement trees: (S1) Statements.Evaluate ranges the whole statement list forward once, evaluates each element once, tests error and returned-flag on every path to the next iteration, leaves with that error / that value and flag, and evaluates the trailing return statement only after the loop; (S2) in IfStmt.Evaluate no CFG path leads from one branch-body evaluation to another (so at most one branch runs), each body is dominated by the true edge of .Bool() of its own condition, the else body by the false edges of all conditions, and else-if conditions are evaluated in list order only after the if-condition was false; (S3) in ForStmt.Evaluate the init assignment is evaluated once before the loop, the condition's .Bool() true edge dominates the body, every path from the body to the next condition passes the step assignment (also the continue path), the break edge reaches no condition, other errors return, a true returned-flag returns value and flag; (S4) ForRangeStmt.Evaluate calls Key() exactly once per iteration and binds it with SetValue(keyName, key) before the body; the iterators advance by one and stop at their length (R5); (S5) BREAKFLAG and CONTINUEFLAG are two distinct package variables, each initialised by its own errors.New and never reassigned, returned only by Break/ContinueStmt and compared only by the two loop evaluators, and no other statement evaluator wraps a child's error, so identity survives nesting and the innermost enclosing loop intercepts; (S6) the returned-flag discipline of C11-M3; (S7) the compound assignment table is exhaustive over the six assignOperator tokens read from the generated parser: += -= *= /= call core.Add/Sub/Mul/Div(current, rhs) with current read from the same target and the result written back to it, = and := skip the read; (S8) one flat local store per rule execution (C15-V1/V2). S2-S4 also demand the converse: a true condition evaluates its branch, an existing else runs when every condition is false, every pass of a loop evaluates the body; the store handed to the body is the one fresh table made for this execution. Only Assignment.Evaluate and the key binding of forRange call SetValue, only Assignment.Evaluate calls SetMapVarValue. The map iterator is given value.MapKeys() and the slice iterator value.Len() of the value it is made for. Not decided: values. (S6') where an evaluator hands on a child's returned-flag, and nothing else as the flag, it hands on that child's value: a return inside a loop or branch ends the rule with its value at every level (break and continue, whose flag marks a sentinel, have no value). (S10) every Accept* method of a statement node stores its parameter itself (directly, appended, or wrapped in a node made there). (S11) reads and writes resolve a name the same way, the injected table first: an assignment writes the variable a later read of the same name reads. The iterators hand out every position once: Key() advances the cursor by exactly one, Next() only asks whether the cursor is below a bound fixed at creation and stores nothing (the iterator contract, shared with C09-R5).",
 		Assumptions: []string{"reflect.Value.Bool", "core arithmetic (C01)"},
 		Trusted:     commonTrusted,
 	})
@@ -845,6 +845,9 @@ func (c *Ctx) ruleS4(rule string) {
 		})
 		c.Check(rule, "iter.NewInter#every-key-and-index", nKeys >= 1 && okKeys && nMax >= 1 && okMax, ni.Pos(), "the map iterator must run over value.MapKeys() and the slice iterator up to value.Len() of the value given (keys ok %v, length ok %v): a list rebuilt from the keys need not hold each key once", okKeys, okMax)
 	}
+	// ... handing out every position once: Key() returns the cursor's position and advances by one, Next()
+	// only asks whether the cursor is below the bound fixed at creation (the iterator contract of C09-R5)
+	c.ruleIteratorContract(rule)
 	// key bound before the body
 	kb, isK := x.isFieldLoad(set.Call.Args[2], "ForRangeStmt", "keyName")
 	okBind := isK && x.Origin(kb) == recv && x.Origin(set.Call.Args[3]) == ssa.Value(key) && domInstr(key, set) && domInstr(set, bodyC)
